@@ -151,6 +151,8 @@ extern "C" int nanosleep(const struct timespec* req, struct timespec* rem)
   using namespace opx;
   if (g_ctl && tl_actor)
   {
+    uint64_t const asked = req ? static_cast<uint64_t>(req->tv_sec) * 1000000000ull + static_cast<uint64_t>(req->tv_nsec) : 0;
+    g_ctl->vclock_ns += std::max(asked, g_ctl->sleep_advance_ns);
     if (!g_ctl->draining) actor_yield(201, AState::Waiting);
     return 0;
   }
@@ -161,6 +163,13 @@ extern "C" int clock_nanosleep(clockid_t id, int flags, const struct timespec* r
   using namespace opx;
   if (g_ctl && tl_actor)
   {
+    if (!(flags & TIMER_ABSTIME))
+    {
+      uint64_t const asked = req ? static_cast<uint64_t>(req->tv_sec) * 1000000000ull + static_cast<uint64_t>(req->tv_nsec) : 0;
+      g_ctl->vclock_ns += std::max(asked, g_ctl->sleep_advance_ns);
+    }
+    else
+      g_ctl->vclock_ns += g_ctl->sleep_advance_ns;
     if (!g_ctl->draining) actor_yield(202, AState::Waiting);
     return 0;
   }
@@ -210,6 +219,7 @@ inline int run_child(Scenario const& sc, std::vector<int> const& prefix, std::ve
   C.prefix = prefix;
   C.prefix_enabled = prefix_enabled;
   C.split_frontend_clock = sc.split_frontend_clock;
+  C.sleep_advance_ns = static_cast<uint64_t>(sc.c("sleepadv_ns", 0));
   C.enabled_hooks = sc.backend_preemptible ? sc.hooks : 0u;
   W.backend_options.error_notifier = [](std::string const& s) { g_world->notes.push_back(s); };
   W.backend_options.log_timestamp_ordering_grace_period = std::chrono::microseconds{0};
@@ -320,6 +330,9 @@ inline int run_child(Scenario const& sc, std::vector<int> const& prefix, std::ve
     }
     Actor* a = C.actors[static_cast<size_t>(en[static_cast<size_t>(c)])].get();
     run_actor(a);
+    if (getenv("OPX_TRACE"))
+      fprintf(stderr, "step %llu: %s -> point %d state %d | enabled %zu choice %d | recs %zu events %zu t=%llu\n", C.step, a->name.c_str(), a->last_point,
+              static_cast<int>(a->state), en.size(), c, W.recs.size(), W.events.size(), static_cast<unsigned long long>(C.vclock_ns % 100000000ull));
     bool const progressed = a->is_backend ? (a->made_progress || a->state == AState::Done) : (a->state != AState::Waiting);
     if (progressed)
     {
